@@ -22,6 +22,14 @@ class Unencodable(Message):
 
 
 def _msg(i, size):
+    if size < 0:        # a watchdog request among the application messages: no message jumps the queue
+        from diameter.message.commands import DeviceWatchdogRequest
+        m = DeviceWatchdogRequest()
+        m.header.hop_by_hop_identifier = 7000 + i
+        m.header.end_to_end_identifier = 9000 + i
+        m.origin_host = b"srv.example.net"
+        m.origin_realm = b"example.net"
+        return m
     m = CreditControlRequest()
     m.header.hop_by_hop_identifier = 7000 + i
     m.header.end_to_end_identifier = 9000 + i
@@ -259,7 +267,7 @@ def random_schedule(run, spec, rng, p_switch):
 def gen_spec(rng, big=False):
     nm = rng.randrange(2, 7 if big else 5)
     nt = rng.randrange(1, 4)
-    msgs = [(rng.choice([0, 3, 40]), rng.random() > 0.2) for _ in range(nm)]
+    msgs = [(rng.choice([0, 3, 40, -1]), rng.random() > 0.2) for _ in range(nm)]
     threads = [[] for _ in range(nt)]
     for i in range(nm):
         threads[rng.randrange(nt)].append(i)
@@ -298,6 +306,7 @@ def check(run):
         dict(messages=[(0, True), (3, True)], threads=[[0, 1]], sends=[5, ("err", errno.EAGAIN), 30]),
         dict(messages=[(0, True), (0, False), (3, True)], threads=[[0], [1, 2]], sends=[1, 200, ("err", errno.EINTR), 7]),
         dict(messages=[(3, True), (0, True), (40, True)], threads=[[0], [1], [2]], sends=[20, 21, ("err", errno.ENOBUFS), "all"]),
+        dict(messages=[(40, True), (3, True), (-1, True), (0, True)], threads=[[0, 1, 2, 3]], sends=[("err", errno.EAGAIN), 9, "all"]),
     ]
     total = 0
     pre = 3 if thorough else 2
